@@ -3,6 +3,7 @@
 (*                                                                                      *)
 (*   info    : covered file -> [cop : BOOLEAN, lic : SUBSET Lics]  what the linter reads *)
 (*   present : SUBSET Lics                                      texts in LICENSES/      *)
+(*   sib     : files whose declarations live in FILE.license                            *)
 (*   hist    : the commands run so far, with the exit status each must have             *)
 (*                                                                                      *)
 (* One action per user-visible command; each is the documented effect of that command   *)
@@ -25,8 +26,9 @@ CONSTANTS Files,        \* covered files of the project
 
 VARIABLES info, present, hist,
           glob,          \* "none" | "dep5" | "toml": where the project-wide declaration lives
+          sib,           \* the files whose own declarations live in a FILE.license sibling (which shadows the file's header)
           start          \* history variable: the initial state of this behaviour (for replay)
-vars == <<info, present, hist, glob, start>>
+vars == <<info, present, hist, glob, sib, start>>
 
 Nothing == [cop |-> FALSE, lic |-> {}]
 
@@ -42,23 +44,36 @@ NoLic(i)       == {f \in DOMAIN i : i[f].lic = {}}
 Compliant(i, p) == Missing(i, p) = {} /\ Unused(i, p) = {} /\ NoCop(i) = {} /\ NoLic(i) = {}
 
 (* ------------------------------------------------------------------ commands *)
-AnnotateCmd(F, c, L) == [kind |-> "annotate", files |-> F, cop |-> c, lic |-> L]
-DownloadCmd(L)       == [kind |-> "download", files |-> {}, cop |-> FALSE, lic |-> L]
-DownloadAllCmd       == [kind |-> "download-all", files |-> {}, cop |-> FALSE, lic |-> {}]
-LintCmd              == [kind |-> "lint", files |-> {}, cop |-> FALSE, lic |-> {}]
-SpdxCmd              == [kind |-> "spdx", files |-> {}, cop |-> FALSE, lic |-> {}]
-ConvertCmd           == [kind |-> "convert-dep5", files |-> {}, cop |-> FALSE, lic |-> {}]
+(* annotate: dot = --force-dot-license (the header goes to FILE.license), skip = --skip-existing *)
+AnnotateCmdX(F, c, L, d, k) == [kind |-> "annotate", files |-> F, cop |-> c, lic |-> L, dot |-> d, skip |-> k]
+AnnotateCmd(F, c, L) == AnnotateCmdX(F, c, L, FALSE, FALSE)
+Plain(k, F, L)       == [kind |-> k, files |-> F, cop |-> FALSE, lic |-> L, dot |-> FALSE, skip |-> FALSE]
+DownloadCmd(L)       == Plain("download", {}, L)
+DownloadAllCmd       == Plain("download-all", {}, {})
+LintCmd              == Plain("lint", {}, {})
+LintFileCmd(F)       == Plain("lint-file", F, {})
+SpdxCmd              == Plain("spdx", {}, {})
+ConvertCmd           == Plain("convert-dep5", {}, {})
 
-Cmds == {AnnotateCmd(F, c, L) : F \in (SUBSET Files) \ {{}}, c \in BOOLEAN, L \in {S \in SUBSET Lics : Cardinality(S) <= 2}}
+Cmds == {AnnotateCmdX(F, c, L, d, k) : F \in (SUBSET Files) \ {{}}, c \in BOOLEAN, L \in {S \in SUBSET Lics : Cardinality(S) <= 2},
+                                       d \in BOOLEAN, k \in BOOLEAN}
         \cup {DownloadCmd(L) : L \in {S \in SUBSET Lics : Cardinality(S) \in {1, 2}}}
+        \cup {LintFileCmd(F) : F \in (SUBSET Files) \ {{}}}
         \cup {DownloadAllCmd, LintCmd, SpdxCmd, ConvertCmd}
 Sensible(c) == c.kind = "annotate" => (c.cop \/ c.lic # {})      \* annotate with nothing to add is a usage error
 
 (* the documented effect on what the project declares *)
-ApplyInfo(c, i) ==
+Declares(x) == x.cop \/ x.lic # {}
+(* --skip-existing looks at the text the header would go into: the file, its sibling if it has one - or the NEW sibling *)
+(* that --force-dot-license is about to create, which is empty whatever the file itself declares                        *)
+Skipped(c, i, s, f) == c.skip /\ Declares(i[f]) /\ (f \in s \/ ~c.dot)
+ApplyInfoS(c, i, s) ==
    IF c.kind = "annotate"
-   THEN [f \in DOMAIN i |-> IF f \in c.files THEN [cop |-> i[f].cop \/ c.cop, lic |-> i[f].lic \cup c.lic] ELSE i[f]]
+   THEN [f \in DOMAIN i |-> IF f \in c.files /\ ~Skipped(c, i, s, f) THEN [cop |-> i[f].cop \/ c.cop, lic |-> i[f].lic \cup c.lic] ELSE i[f]]
    ELSE i
+ApplyInfo(c, i) == ApplyInfoS(c, i, {})
+(* a sibling appears where --force-dot-license writes one; nothing ever removes one *)
+ApplySib(c, i, s) == IF c.kind = "annotate" /\ c.dot THEN s \cup {f \in c.files : ~Skipped(c, i, s, f)} ELSE s
 ApplyPresent(c, i, p) ==
    CASE c.kind = "download"     -> p \cup c.lic
      [] c.kind = "download-all" -> p \cup Missing(i, p)
@@ -66,19 +81,20 @@ ApplyPresent(c, i, p) ==
 (* convert-dep5 moves the project-wide declaration from .reuse/dep5 into REUSE.toml; without a dep5 it refuses *)
 ApplyGlob(c, g) == IF c.kind = "convert-dep5" /\ g = "dep5" THEN "toml" ELSE g
 (* ... and the documented exit status (i = what the linter sees) *)
-ExitOfG(c, i, p, g) ==
-   IF c.kind = "convert-dep5" THEN (IF g = "dep5" THEN 0 ELSE 2)
-   ELSE CASE c.kind = "lint"     -> IF Compliant(i, p) THEN 0 ELSE 1
-          [] c.kind = "download" -> IF c.lic \cap p # {} THEN 1 ELSE 0
-          [] OTHER               -> 0
+(* lint-file F: the per-file problems of the named files, nothing about the licence inventory as a whole *)
+FileTrouble(i, p, f) == ~i[f].cop \/ i[f].lic = {} \/ ~(i[f].lic \subseteq p)
 ExitOf(c, i, p) ==
    CASE c.kind = "lint"         -> IF Compliant(i, p) THEN 0 ELSE 1
+     [] c.kind = "lint-file"    -> IF \E f \in c.files : FileTrouble(i, p, f) THEN 1 ELSE 0
      [] c.kind = "download"     -> IF c.lic \cap p # {} THEN 1 ELSE 0        \* an existing text is refused, never replaced
      [] OTHER                   -> 0
+ExitOfG(c, i, p, g) ==
+   IF c.kind = "convert-dep5" THEN (IF g = "dep5" THEN 0 ELSE 2) ELSE ExitOf(c, i, p)
 
 Exec(c) == /\ Len(hist) < MaxCmds
            /\ Sensible(c)
-           /\ info' = ApplyInfo(c, info)
+           /\ info' = ApplyInfoS(c, info, sib)
+           /\ sib' = ApplySib(c, info, sib)
            /\ present' = ApplyPresent(c, Seen(info, glob), present)
            /\ glob' = ApplyGlob(c, glob)
            /\ hist' = Append(hist, [cmd |-> c, exit |-> ExitOfG(c, Seen(info, glob), present, glob)])
@@ -93,24 +109,40 @@ Init == /\ hist = <<>>
                                [f \in Files |-> IF f = CHOOSE g \in Files : TRUE THEN [cop |-> TRUE, lic |-> {x}] ELSE Nothing]}
                   /\ present \in {{}, {x}, Lics}
         /\ glob \in {"none", "dep5", "toml"}
-        /\ start = [info |-> info, present |-> present, glob |-> glob]
+        /\ sib \in (IF InitPick = "all" THEN SUBSET {f \in Files : Declares(info[f])} ELSE {{}})     \* (an empty sibling is not generated)
+        /\ start = [info |-> info, present |-> present, glob |-> glob, sib |-> sib]
 Next == \E c \in Cmds : Exec(c)
 Spec == Init /\ [][Next]_vars
 (* for -simulate: one randomly drawn command per kind, so that behaviours mix the kinds evenly *)
-Kinds == {"annotate", "annotate-everything", "download", "download-all", "lint", "spdx", "convert-dep5"}
+Kinds == {"annotate", "annotate-everything", "download", "download-all", "lint", "lint-file", "spdx", "convert-dep5"}
 GenPool(k) == IF k = "annotate-everything"            \* the tutorial's step: every file gets a holder and one licence
               THEN {AnnotateCmd(Files, TRUE, {x}) : x \in Lics}
               ELSE {x \in Cmds : x.kind = k /\ Sensible(x)}
-GenNext == \E k \in Kinds : \E c \in {RandomElement(GenPool(k))} : Exec(c)
+(* (the pool is filtered by a state-dependent - always true - condition: TLC would otherwise evaluate the random draw *)
+(* once, as a constant, and every behaviour would use the same command of each kind)                                *)
+GenNext == /\ Len(hist) < MaxCmds
+           /\ \E k \in Kinds : \E c \in {RandomElement({x \in GenPool(k) : Len(hist) < MaxCmds})} : Exec(c)
 
 (* ------------------------------------------------------------------ laws *)
 (* no command ever removes a declaration or a licence text *)
 Monotone == [][/\ present \subseteq present'
                /\ \A f \in DOMAIN info : (info[f].cop => info'[f].cop) /\ info[f].lic \subseteq info'[f].lic]_vars
 (* lint and spdx change nothing *)
-ReadersReadOnly == [][hist'[Len(hist')].cmd.kind \in {"lint", "spdx"} => (info' = info /\ present' = present /\ glob' = glob)]_vars
+ReadersReadOnly == [][hist'[Len(hist')].cmd.kind \in {"lint", "lint-file", "spdx"} => (info' = info /\ present' = present /\ glob' = glob /\ sib' = sib)]_vars
+(* siblings only appear, and only where --force-dot-license was asked for *)
+SiblingsOnlyGrow == [][sib \subseteq sib' /\ (sib' # sib => hist'[Len(hist')].cmd.dot)]_vars
+(* --skip-existing never adds to a text that declares something already *)
+SkipExistingLeavesDeclaringTextsAlone ==
+   [][LET c == hist'[Len(hist')].cmd
+      IN  c.kind = "annotate" /\ c.skip => \A f \in c.files : (Declares(info[f]) /\ (f \in sib \/ ~c.dot)) => info'[f] = info[f]]_vars
+(* C13 at this level: lint-file on every file fails exactly when lint has a per-file or missing-licence complaint; *)
+(* a compliant project passes lint-file for every subset                                                          *)
+LintFileVsLint == LET sn == Seen(info, glob)
+                  IN  /\ (ExitOf(LintFileCmd(Files), sn, present) = 1) <=> (NoCop(sn) # {} \/ NoLic(sn) # {} \/ Missing(sn, present) # {})
+                      /\ Compliant(sn, present) => \A F \in (SUBSET Files) \ {{}} : ExitOf(LintFileCmd(F), sn, present) = 0
+                      /\ \A F, G \in (SUBSET Files) \ {{}} : F \subseteq G /\ ExitOf(LintFileCmd(F), sn, present) = 1 => ExitOf(LintFileCmd(G), sn, present) = 1
 (* C17 at this level: converting dep5 changes where the declaration lives, never what any file is seen to declare *)
-ConversionKeepsAttribution == [][Seen(info', glob') = Seen(ApplyInfo(hist'[Len(hist')].cmd, info), glob)]_vars
+ConversionKeepsAttribution == [][Seen(info', glob') = Seen(ApplyInfoS(hist'[Len(hist')].cmd, info, sib), glob)]_vars
 OnlyConvertMovesGlob == [][glob' # glob => (hist'[Len(hist')].cmd.kind = "convert-dep5" /\ glob = "dep5" /\ glob' = "toml")]_vars
 (* the tutorial's promise: annotate everything, download what is missing -> compliant (unless unused texts lie around) *)
 Fixed(i, p, x) == LET i2 == ApplyInfo(AnnotateCmd(DOMAIN i, TRUE, {x}), i)
@@ -134,9 +166,9 @@ DownloadPartial == \A c \in Cmds : c.kind = "download" => ApplyPresent(c, info, 
 RECURSIVE SetToSeq(_)
 SetToSeq(T) == IF T = {} THEN <<>> ELSE LET x == CHOOSE y \in T : TRUE IN <<x>> \o SetToSeq(T \ {x})
 InfoJson(i) == [f \in DOMAIN i |-> [cop |-> i[f].cop, lic |-> SetToSeq(i[f].lic)]]
-CmdJson(c) == [kind |-> c.kind, files |-> SetToSeq(c.files), cop |-> c.cop, lic |-> SetToSeq(c.lic)]
+CmdJson(c) == [kind |-> c.kind, files |-> SetToSeq(c.files), cop |-> c.cop, lic |-> SetToSeq(c.lic), dot |-> c.dot, skip |-> c.skip]
 Emit == Len(hist) = MaxCmds =>
-          PrintT(ToJson([info |-> InfoJson(start.info), present |-> SetToSeq(start.present), glob |-> start.glob,
+          PrintT(ToJson([info |-> InfoJson(start.info), present |-> SetToSeq(start.present), glob |-> start.glob, sib |-> SetToSeq(start.sib),
                          hist |-> [k \in 1..Len(hist) |-> [cmd |-> CmdJson(hist[k].cmd), exit |-> hist[k].exit]],
                          endinfo |-> InfoJson(info), endpresent |-> SetToSeq(present)]))
 =====================================================================================
